@@ -452,3 +452,34 @@ Theorem stale_flags_not_recovered :
   read_line_windows 0 [move_after_home [107; 55; 114; 52] stale_n1 107 stale_n2 114 stale_n3 48 ++ [BANG]]
   = WDone [107; 55; 114; 52; 48] 26 [[]].
 Proof. vm_compute. repeat split. Qed.
+
+(* the proved relation is the full one minus its last two constructors *)
+Lemma win_noisy_in_full : forall stale acc e s, win_noisy stale acc e s -> win_noisy_full stale acc e s.
+Proof.
+  induction 1.
+  - apply wf_end; assumption.
+  - apply wf_char; assumption.
+  - apply wf_reprint; assumption.
+  - apply wf_home; assumption.
+Qed.
+
+(* the two witnesses are renderings in the full relation *)
+Lemma home_at_end_is_documented :
+  win_noisy_full false [] [50] (home_before_terminator [50] home_end_n1 89 home_end_n2).
+Proof.
+  apply (wf_char false [] [] 50 [] (render home_end_n1 ++ 89 :: render home_end_n2)); try reflexivity.
+  apply wf_home_at_end; reflexivity.
+Qed.
+
+Lemma stale_flags_is_documented :
+  win_noisy_full false [] [107; 55; 114; 52; 114; 48]
+    (move_after_home [107; 55; 114; 52] stale_n1 107 stale_n2 114 stale_n3 48).
+Proof.
+  apply (wf_char false [] [] 107 [55; 114; 52; 114; 48]); try reflexivity.
+  apply (wf_char false [107] [] 55 [114; 52; 114; 48]); try reflexivity.
+  apply (wf_char false [107; 55] [] 114 [52; 114; 48]); try reflexivity.
+  apply (wf_char false [107; 55; 114] [] 52 [114; 48]); try reflexivity.
+  apply (wf_home false [107; 55; 114; 52] stale_n1 107 stale_n2 114 [48] (render stale_n3 ++ [48])); try reflexivity.
+  apply (wf_move_when_stale [107; 55; 114; 52; 114] stale_n3 48 [] []); try reflexivity.
+  apply (wf_end false _ []). reflexivity.
+Qed.
